@@ -1,3 +1,4 @@
+From Coq Require Import Permutation.
 From Verif Require Import Lib.Base Model.C18_Cache.
 
 (* --- the association list refines a functional map --------------------------------------- *)
@@ -397,7 +398,154 @@ Section Chain.
     destruct (run s2 ops2) as [s3 xs] eqn:Er. cbn [fst] in *.
     unfold cached in Hfin. cbn [step]. rewrite Hfin. reflexivity.
   Qed.
+  (* --- writes that overlap the cleaning job (storms): whatever the interleaving of the micro-events
+     of a group, a completed write of a root that no cleaning run of the group is entitled to remove
+     is in the map after the group; so is every root answered with a slot; and a root cached before
+     the group is a hit at any moment of it. *)
+  Lemma par_run_set_kept evs1 : forall s pend evs2 r, Inv s ->
+    Forall pev_consistent (evs1 ++ PEvent r (slot_of r) :: evs2) -> Forall (pev_keeps r) evs2 ->
+    cached (fst (par_run s pend (evs1 ++ PEvent r (slot_of r) :: evs2))) r.
+  Proof.
+    induction evs1 as [|e evs1 IH]; intros s pend evs2 r Hi Hc Hk.
+    - cbn [app par_run pstep]. inversion Hc as [|? ? He Hrest]; subst.
+      pose proof (par_run_keeps evs2 r (set s r (slot_of r)) pend (inv_set s r Hi) Hrest Hk) as H1.
+      destruct (par_run (set s r (slot_of r)) pend evs2) as [s2 ans]. apply H1.
+      unfold cached. rewrite get_set, N.eqb_refl. reflexivity.
+    - cbn [app par_run]. inversion Hc as [|? ? He Hrest]; subst.
+      pose proof (pstep_inv s pend e Hi He) as H1.
+      destruct (pstep s pend e) as [[s1 pend1] a]. cbn [fst] in H1.
+      specialize (IH s1 pend1 evs2 r H1 Hrest Hk).
+      destruct (par_run s1 pend1 (evs1 ++ PEvent r (slot_of r) :: evs2)) as [s2 ans]. exact IH.
+  Qed.
+
+  Lemma pstep_answer_cached s pend e i r sl : Inv s -> pev_consistent e ->
+    snd (pstep s pend e) = Some (i, r, Some sl) -> cached (fst (fst (pstep s pend e))) r.
+  Proof.
+    intros [_ Hs] Hc. unfold cached.
+    destruct e as [j r' | j r' f | r' sl' | ce spe]; cbn [pstep pev_consistent] in *.
+    - destruct (get s r') as [sl0|] eqn:G; cbn [snd fst]; [|discriminate].
+      intro H; injection H as <- <- <-. rewrite G. f_equal. apply Hs; exact G.
+    - destruct (memb N.eqb j pend); cbn [snd]; [|discriminate].
+      destruct f as [sl0|]; cbn [snd fst]; intro H; [|discriminate]. injection H as <- <- <-.
+      rewrite get_set, N.eqb_refl. f_equal. exact Hc.
+    - discriminate.
+    - discriminate.
+  Qed.
+
+  Lemma par_run_answered_kept evs r : forall s pend, Inv s -> Forall pev_consistent evs ->
+    Forall (pev_keeps r) evs ->
+    forall i sl, In (i, r, Some sl) (snd (par_run s pend evs)) -> cached (fst (par_run s pend evs)) r.
+  Proof.
+    induction evs as [|e evs IH]; intros s pend Hi Hc Hk i sl Hin; cbn [par_run] in *; [destruct Hin|].
+    inversion Hc as [|? ? He Hrest]; subst. inversion Hk as [|? ? Hke Hkrest]; subst.
+    pose proof (pstep_inv s pend e Hi He) as H1.
+    pose proof (pstep_answer_cached s pend e i r sl Hi He) as H2.
+    destruct (pstep s pend e) as [[s1 pend1] a]. cbn [fst snd] in H1, H2.
+    pose proof (IH s1 pend1 H1 Hrest Hkrest i sl) as H3.
+    pose proof (par_run_keeps evs r s1 pend1 H1 Hrest Hkrest) as H4.
+    destruct (par_run s1 pend1 evs) as [s2 ans]. cbn [fst snd] in *.
+    destruct a as [x|]; [|apply H3; exact Hin].
+    destruct Hin as [Hx|Hin]; [subst x; apply H4; apply H2; reflexivity | apply H3; exact Hin].
+  Qed.
+
+  Lemma par_run_cached_hits evs1 : forall s pend i r evs2, Inv s -> cached s r ->
+    Forall pev_consistent evs1 -> Forall (pev_keeps r) evs1 ->
+    In (i, r, Some (slot_of r)) (snd (par_run s pend (evs1 ++ PBegin i r :: evs2))).
+  Proof.
+    induction evs1 as [|e evs1 IH]; intros s pend i r evs2 Hi H Hc Hk.
+    - cbn [app par_run pstep]. unfold cached in H. rewrite H.
+      destruct (par_run s pend evs2) as [s2 ans]. left. reflexivity.
+    - cbn [app par_run]. inversion Hc as [|? ? He Hrest]; subst. inversion Hk as [|? ? Hke Hkrest]; subst.
+      pose proof (pstep_inv s pend e Hi He) as H1.
+      pose proof (pstep_keeps s pend e r Hi He Hke H) as H2.
+      destruct (pstep s pend e) as [[s1 pend1] a]. cbn [fst] in H1, H2.
+      specialize (IH s1 pend1 i r evs2 H1 H2 Hrest Hkrest).
+      destruct (par_run s1 pend1 (evs1 ++ PBegin i r :: evs2)) as [s2 ans]. cbn [snd] in *.
+      destruct a; [right|]; exact IH.
+  Qed.
 End Chain.
+
+(* --- a root that no micro-event of a group writes: what the group leaves of it is what its cleaning
+   runs leave of it, whatever the order of the micro-events ---------------------------------- *)
+
+Definition pev_touches (r : root) (e : pev) : Prop :=
+  match e with
+  | PEvent r' _ => r' = r
+  | PEnd _ r' (Some _) => r' = r
+  | _ => False
+  end.
+
+Definition removed_by (sl : slot) (e : pev) : bool :=
+  match e with
+  | PClean ce spe => negb (ce <=? retention) && (sl <? min_slot ce spe)
+  | _ => false
+  end.
+
+Lemma par_run_untouched evs r : forall s pend, wf s -> Forall (fun e => ~ pev_touches r e) evs ->
+  get (fst (par_run s pend evs)) r =
+    match get s r with
+    | Some sl => if existsb (removed_by sl) evs then None else Some sl
+    | None => None
+    end.
+Proof.
+  induction evs as [|e evs IH]; intros s pend Hwf Hn; cbn [par_run existsb].
+  - cbn [fst]. destruct (get s r); reflexivity.
+  - inversion Hn as [|? ? Hne Hrest]; subst.
+    pose proof (pstep_wf s pend e Hwf) as H1.
+    assert (Hg : get (fst (fst (pstep s pend e))) r =
+                 match get s r with Some sl => if removed_by sl e then None else Some sl | None => None end).
+    { destruct e as [i r' | i r' f | r' sl' | ce spe]; cbn [pstep removed_by pev_touches] in *.
+      - destruct (get s r'); cbn [fst]; destruct (get s r); reflexivity.
+      - destruct (memb N.eqb i pend); cbn [fst]; [|destruct (get s r); reflexivity].
+        destruct f as [sl0|]; cbn [fst]; [|destruct (get s r); reflexivity].
+        rewrite get_set. destruct (r' =? r) eqn:E; [apply N.eqb_eq in E; contradiction|].
+        destruct (get s r); reflexivity.
+      - cbn [fst]. rewrite get_set. destruct (r' =? r) eqn:E; [apply N.eqb_eq in E; contradiction|].
+        destruct (get s r); reflexivity.
+      - cbn [fst]. rewrite get_clean by exact Hwf.
+        destruct (ce <=? retention); cbn [negb andb]; [destruct (get s r); reflexivity|].
+        destruct (get s r) as [sl|]; [|reflexivity]. destruct (sl <? min_slot ce spe); reflexivity. }
+    destruct (pstep s pend e) as [[s1 pend1] a]. cbn [fst] in H1, Hg.
+    specialize (IH s1 pend1 H1 Hrest).
+    destruct (par_run s1 pend1 evs) as [s2 ans]. cbn [fst] in *.
+    rewrite IH, Hg. destruct (get s r) as [sl|]; [|reflexivity].
+    destruct (removed_by sl e); reflexivity.
+Qed.
+
+Lemma existsb_perm {A} (f : A -> bool) l l' : Permutation l l' -> existsb f l = existsb f l'.
+Proof.
+  intro H. destruct (existsb f l) eqn:E1; destruct (existsb f l') eqn:E2; try reflexivity.
+  - apply existsb_exists in E1. destruct E1 as [x [Hin Hf]].
+    assert (E3 : existsb f l' = true) by (apply existsb_exists; exists x; split; [eapply Permutation_in; eassumption | exact Hf]).
+    congruence.
+  - apply existsb_exists in E2. destruct E2 as [x [Hin Hf]].
+    assert (E3 : existsb f l = true) by (apply existsb_exists; exists x; split; [eapply Permutation_in; [apply Permutation_sym; eassumption | exact Hin] | exact Hf]).
+    congruence.
+Qed.
+
+(* the writes and the cleaning runs of a group in two different orders: the same map at every root
+   that a block event of the group writes and none of its cleaning runs may remove, and at every root
+   that the group does not write *)
+Lemma par_run_order_irrelevant (slot_of : root -> slot) s pend evs evs' r :
+  Inv slot_of s -> Permutation evs evs' -> Forall (pev_consistent slot_of) evs ->
+  (In (PEvent r (slot_of r)) evs /\ Forall (pev_keeps slot_of r) evs) \/ Forall (fun e => ~ pev_touches r e) evs ->
+  get (fst (par_run s pend evs)) r = get (fst (par_run s pend evs')) r.
+Proof.
+  intros Hi Hp Hc [[Hin Hk] | Hn].
+  - assert (Hc' : Forall (pev_consistent slot_of) evs') by (eapply Permutation_Forall; eassumption).
+    assert (Hk' : Forall (pev_keeps slot_of r) evs') by (eapply Permutation_Forall; eassumption).
+    assert (Hin' : In (PEvent r (slot_of r)) evs') by (eapply Permutation_in; eassumption).
+    assert (Hone : forall l, In (PEvent r (slot_of r)) l -> Forall (pev_consistent slot_of) l ->
+                     Forall (pev_keeps slot_of r) l -> get (fst (par_run s pend l)) r = Some (slot_of r)).
+    { intros l Hl Hcl Hkl. apply in_split in Hl. destruct Hl as [l1 [l2 ->]].
+      apply (par_run_set_kept slot_of l1 s pend l2 r Hi Hcl).
+      apply Forall_app in Hkl. destruct Hkl as [_ Hkl]. inversion Hkl; assumption. }
+    rewrite (Hone evs Hin Hc Hk), (Hone evs' Hin' Hc' Hk'). reflexivity.
+  - assert (Hn' : Forall (fun e => ~ pev_touches r e) evs') by (eapply Permutation_Forall; eassumption).
+    rewrite (par_run_untouched evs r s pend (proj1 Hi) Hn), (par_run_untouched evs' r s pend (proj1 Hi) Hn').
+    destruct (get s r) as [sl|]; [|reflexivity].
+    rewrite (existsb_perm (removed_by sl) evs evs' Hp). reflexivity.
+Qed.
 
 (* --- overlapping lookups: a failed fetch is an error for the goroutine that fetched, it stores
    nothing, and an error answer arises in no other way ------------------------------------- *)
